@@ -2092,6 +2092,12 @@ func (lexer *Lexer) ScanRegExp() {
 					lexer.SyntaxError()
 				}
 			}
+
+			// The "u" and "v" flags are mutually exclusive
+			if (bits&(1<<('u'-'a'))) != 0 && (bits&(1<<('v'-'a'))) != 0 {
+				lexer.log.AddError(&lexer.tracker, logger.Range{Loc: logger.Loc{Start: int32(lexer.start)}, Len: int32(lexer.end - lexer.start)},
+					"The \"u\" and \"v\" flags cannot be used together in a regular expression")
+			}
 			return
 
 		case '[':
